@@ -505,6 +505,14 @@ func c03Scenario(name string) func() explore.SchedOutcome {
 			base = "" // recomputed below, the hostile peer is a legitimate (if deaf) user here
 			g.Send(ref.Tx{Type: ref.TUserBroadcast, Fields: []ref.Fld{ref.FS(ref.FData, strings.Repeat("b", 40000))}})
 			g.Send(ref.Tx{Type: ref.TChatSend, Fields: []ref.Fld{ref.FS(ref.FData, "hello")}})
+		case "SC6": // a client that stops reading and keeps asking: hundreds of replies to it are pending at once
+			h, _ := wd.Connect("10.0.0.66:6666", "", "", "hh")
+			hostiles = append(hostiles, h.Conn)
+			h.Conn.Stalled = true
+			base = ""
+			for i := 0; i < c03Flood; i++ {
+				h.Send(ref.Tx{Type: ref.TGetUserNameList})
+			}
 		case "SC5": // a client that disconnects while a broadcast to it is in flight
 			g, _ := wd.Connect("10.0.0.9:1009", "admin", "secret", "adm")
 			base = c03Baseline(wd, sentinel)
@@ -519,7 +527,7 @@ func c03Scenario(name string) func() explore.SchedOutcome {
 		if sentinel.Reply(sid) == nil {
 			fail("sentinel-not-answered", fmt.Sprintf("blocked: %v", vrt.Blocked()))
 		}
-		if name == "SC4" {
+		if name == "SC4" || name == "SC6" {
 			// the deaf client holds senders to itself blocked; everybody else must still be served
 			id := sentinel.Req(ref.TGetUserNameList)
 			vrt.Settle(20 * time.Second)
@@ -555,7 +563,10 @@ func c03Scenario(name string) func() explore.SchedOutcome {
 	}
 }
 
-var c03Scenarios = []string{"SC1", "SC2", "SC3", "SC4", "SC5"}
+var c03Scenarios = []string{"SC1", "SC2", "SC3", "SC4", "SC5", "SC6"}
+
+// c03Flood is the number of requests the deaf client of SC6 sends (each leaves one reply pending for it).
+var c03Flood = 300
 
 func c03Watchdog(w *explore.Worker, outPath string) {
 	go func() {
@@ -588,7 +599,11 @@ func runC03(w *explore.Worker) {
 	}
 	for _, sc := range c03Scenarios {
 		c03Current = "" // the watchdog guards single mutation cases; schedule exploration is bounded by the step horizon
-		explore.ExploreSchedules(w, explore.SchedConfig{Harness: "C03" + sc, Bound: bound, FreeCost: 1, MaxSteps: 50000, Suspend: true}, c03Scenario(sc))
+		b := bound
+		if sc == "SC6" {
+			b-- // executions of SC6 are two orders of magnitude longer: one deviation less
+		}
+		explore.ExploreSchedules(w, explore.SchedConfig{Harness: "C03" + sc, Bound: b, FreeCost: 1, MaxSteps: 50000, Suspend: true}, c03Scenario(sc))
 	}
 	w.Max("scenario_deviation_bound_completed", bound)
 	cs := c03Cases(w.Thorough)
